@@ -51,7 +51,15 @@ func gen(t *rapid.T) Prog {
 	p.Comm = rapid.SampledFrom([]uint8{15, 15, 7, 14, 11, 13, 3, 5, 6, 9, 10, 12, 1, 8, 0}).Draw(t, "comm")
 	p.Other = uint8(rapid.IntRange(0, 3).Draw(t, "other"))
 	p.Steps = rapid.SliceOfN(rapid.Custom(genStep), 8, 56).Draw(t, "steps")
-	p.Fetch = rapid.SliceOfN(rapid.Custom(genFetch), 0, 30).Draw(t, "fetch")
+	if rapid.IntRange(0, 2).Draw(t, "single_failure") == 0 {
+		// one isolated beacon-node failure at the k-th duties call, healthy before and after
+		p.Fetch = []FetchSpec{{N: rapid.IntRange(0, 14).Draw(t, "ok_before")}, {Fail: true, N: 1}}
+		if p.Fetch[0].N == 0 {
+			p.Fetch = p.Fetch[1:]
+		}
+	} else {
+		p.Fetch = rapid.SliceOfN(rapid.Custom(genFetch), 0, 30).Draw(t, "fetch")
+	}
 	return p
 }
 
